@@ -37,7 +37,7 @@ def explore(tier, seed):
     rng = random.Random(seed * 17 + 15)
     loop = asyncio.new_event_loop()
     stats = {"evaluations": 0, "requests": 0, "nontrivial": set(), "problems": [], "samples": [], "max_in_flight": 0}
-    nschemas, nfam = (fw.scale(14), 40) if tier == "quick" else (fw.scale(80), 120)
+    nschemas, nfam = (fw.scale(30), 50) if tier == "quick" else (fw.scale(120), 120)
     t0 = time.time()
     for si in range(nschemas):
         sg = SchemaGen(rng)
